@@ -212,14 +212,14 @@ func (di *DiskImage) PowerLoss() {
 
 // SMOptions tunes an instrumented state machine.
 type SMOptions struct {
-	Kind         SMKind
-	SlowLookup   time.Duration // legitimately slow user code
-	SlowSave     time.Duration
-	SlowUpdate   time.Duration
-	SlowPrepare  time.Duration // PrepareSnapshot dwells after fixing its view
-	SlowSync     time.Duration
+	Kind        SMKind
+	SlowLookup  time.Duration // legitimately slow user code
+	SlowSave    time.Duration
+	SlowUpdate  time.Duration
+	SlowPrepare time.Duration // PrepareSnapshot dwells after fixing its view
+	SlowSync    time.Duration
 	// OnApply is called for every user entry inside Update, before the result is returned
-	OnApply func(host int, id uint64)
+	OnApply      func(host int, id uint64)
 	RaceCanary   bool // keep the deliberately unsynchronised field (race detector oracle)
 	RecordApply  bool
 	OpenFailStop bool
